@@ -15,7 +15,8 @@
 EXTENDS Integers, Sequences, FiniteSets
 
 CONSTANTS M, BitmapW, GetW, LateT,
-          Fixed_F20   \* TRUE: a restart of the counters also restarts the loss bitmap (the repaired code)
+          Fixed_F20,  \* TRUE: a restart of the counters also restarts the loss bitmap (the repaired code)
+          Fixed_F26   \* TRUE: the bitmap no longer decides 'restart' on its own, relative to its first (the repaired code)
 
 CHalf == M \div 2
 CMod(x) == x % M
@@ -41,7 +42,7 @@ TrailingOnes(S, n) == IF n \in S THEN TrailingOnes(S, n + 1) ELSE n
 
 \* bitmap.set
 BmSet(c, s) ==
-  IF ~c.bmValid \/ Invalid(s, c.bmFirst)
+  IF ~c.bmValid \/ (~Fixed_F26 /\ Invalid(s, c.bmFirst))
   THEN [c EXCEPT !.bmFirst = s, !.bmBits = {0}, !.bmValid = TRUE]
   ELSE IF CCmp(c.bmFirst, s) > 0 THEN c
   ELSE LET d   == CMod(s - c.bmFirst)
